@@ -45,11 +45,30 @@ def _replay_one(rec):
     return bad
 
 
+def rekey_history(pair):
+    """One accessor object and one table object used twice: between the two encodings the caller re-keys the row of the start vertex
+    in place. The second strand must follow the new row (the expectations of both rows come from TLC's export)."""
+    a, b = pair
+    L = a["live"]
+    acc = impl.accessor([L, [0, 1, 2, 3], [0, 1, 2, 3], [0, 1, 2, 3]])
+    sh = numpy.array([a["row"], cf.IDENT, cf.IDENT, cf.IDENT], dtype=int)
+    kw = dict(is_faster=(a["mode"] == "fast"), shuffles=sh)
+    bad = []
+    r1 = impl.call(dsw.encode, numpy.array(a["msg"], dtype=int), acc, 0, **kw)
+    sh[0, :] = b["row"]
+    r2 = impl.call(dsw.encode, numpy.array(b["msg"], dtype=int), acc, 0, **kw)
+    for rec, r, when in ((a, r1, "before"), (b, r2, "after the row was re-keyed in place")):
+        got = impl.undna(r["value"]) if r["out"] == "ok" else cf.outcome(r)
+        if got != rec["strand"]:
+            bad.append(("strand-with-table", impl.dna(rec["strand"]), {"when": when, "got": r.get("value", got), "row": rec["row"]}))
+    return bad
+
+
 def histories(rng, n):
     cases = []
     for h in range(n):
         tables, events, held = [], [], []
-        pool = [(rng.randint(1, 6 if h % 5 == 0 else 4), rng.choice([0, 1, 7, 2021, 12345, 2 ** 31 - 1])) for _ in range(3)]
+        pool = [(rng.randint(1, 6 if h % 3 == 0 else 4), rng.choice([0, 1, 7, 2021, 12345, 2 ** 31 - 1])) for _ in range(3)]
         for step in range(rng.randint(4, 9)):
             k, seed = rng.choice(pool)
             other = False
@@ -60,7 +79,7 @@ def histories(rng, n):
                     dsw.approximate_capacity(dsw.get_complete_accessor(1), repeats=2)
                 if rng.random() < 0.3:
                     numpy.random.seed(rng.randint(0, 1000))
-            r = impl.call(dsw.create_random_shuffles, k, random_seed=seed, verbose=False)
+            r = impl.call(dsw.create_random_shuffles, k, random_seed=seed, verbose=(rng.random() < 0.4), _quiet=True)
             if r["out"] != "ok":
                 cases.append({"kind": "table", "k": k, "seed": seed, "out": cf.outcome(r), "table": []})
                 continue
@@ -87,6 +106,18 @@ def run(ctx):
         ctx.mark("A" + json.dumps([rec["row"], rec["live"], rec["dg"], rec["mode"]]))
         for clause, exp, obs in bad:
             ctx.violation(clause, {k: rec[k] for k in ("row", "live", "dg", "mode", "msg")}, exp, impl.jsonable(obs))
+    groups = {}
+    for rec in recs:
+        groups.setdefault((tuple(rec["live"]), rec["dg"], rec["mode"]), []).append(rec)
+    pairs = []
+    for g in groups.values():
+        pairs += [(g[i], g[(i + 7) % len(g)]) for i in range(0, len(g), 3)]
+    for pair, bad in zip(pairs, impl.pmap(rekey_history, pairs)):
+        ctx.judged()
+        ctx.mark("H" + json.dumps([pair[0]["row"], pair[1]["row"], pair[0]["live"], pair[0]["dg"], pair[0]["mode"]]))
+        for clause, exp, obs in bad:
+            ctx.violation(clause, {"live": pair[0]["live"], "dg": pair[0]["dg"], "mode": pair[0]["mode"], "row_before": pair[0]["row"],
+                                   "row_after": pair[1]["row"]}, exp, impl.jsonable(obs))
     ctx.sample({"flow": "A", "record": recs[500]})
     rng = random.Random(ctx.seed * 6700417 % (2 ** 31) + 18)
     state = numpy.random.get_state()
